@@ -910,16 +910,32 @@ def replay_effect_text(a):
 
 
 # ------------------------------------------------------------------------------------------
+def gen_pending(loader, check, replay_on=True):
+    """'under exactly the conditions C specifies' includes the side effects of value-producing operations inside a statement: all
+    pending effects of a statement are sequenced with it (chk_hybrid_dep), and a value-unused k++; inside an if / else arm runs in
+    that arm only (the ghost-state contracts of C06, restricted to statements)"""
+    from . import c06
+    saved = getattr(check, "ob_filter", None)
+    check.ob_filter = r"chk_hybrid_dep#|selection_stmt#side-effect|#total"
+    try:
+        c06.gen_chk(loader, check, replay_on)
+        c06.gen_selected(loader, check, replay_on)
+    finally:
+        check.ob_filter = saved
+
+
 def gen_task(loader, check, what, replay_on=True, **kw):
     if what == "assign":
         gen_assignments(loader, check, replay_on, **kw)
+    elif what == "pending":
+        gen_pending(loader, check, replay_on)
     else:
         {"sequence": gen_sequence, "effects": gen_effect_emission, "stmts": gen_stmt_callbacks, "flatten": gen_flatten,
          "chained": gen_chained}[what](loader, check, replay_on)
 
 
 def generate_reduced(loader, check):
-    for w in ("sequence", "effects", "stmts", "flatten", "chained"):
+    for w in ("sequence", "effects", "stmts", "flatten", "chained", "pending"):
         gen_task(loader, check, w, False)
     gen_assignments(loader, check, False, ops=[("=", None), ("-=", "-"), ("^=", "^"), ("<<=", "<<")], dtypes=[(True, 32), (False, 64)], stypes=[(True, 32), (False, 8)])
 
@@ -932,7 +948,7 @@ def run(check: Check):
     check.trust("T-IND: statement nesting by structural induction (callbacks only see their children's effects as opaque values)")
     check.assume("A-NAMES: add_op through its contract; chk_hybrid_dep with an empty pending table (pending side effects are C06's)")
     check.assume("C-side UB excluded: shift counts in range, divisor non-zero")
-    tasks = [{"what": w} for w in ("sequence", "effects", "stmts", "flatten", "chained")]
+    tasks = [{"what": w} for w in ("sequence", "effects", "stmts", "flatten", "chained", "pending")]
     for op in ASSIGN_OPS:
         tasks.append({"what": "assign", "ops": [list(op)]})
     check.run_parallel("contracts.c05", "gen_task", tasks, workers=WORKERS)
